@@ -10,11 +10,20 @@ from gffutils.feature import feature_from_line
 from gv.model import dbutil, grammar as G
 
 ID = "C17"
-RULE = ("part 'set': feature source {parsed, database} x setter {Feature[k]=, attributes[k]=, update, setdefault} x value (8 shapes incl. "
-        "scalar, empty list, non-ASCII, reserved characters) x existing/new key x always_return_list; part 'json': every mapping with 1..3 keys "
-        "over the value shapes; part 'merge': all ordered pairs of 81 mappings x numeric_sort x container kind x switch; part 'eq': all pairs "
-        "of a 24-feature set. Non-trivial = a scalar or single-item or non-ASCII value is involved (set/json), both arguments share a key "
-        "(merge), the two features differ in exactly one column or attribute (eq)")
+RULE = (
+    "No tier dependence. Part 'set' (shards = feature source {parsed line, database look-up} x setter {Feature[k]=, attributes[k]=, "
+    "update, setdefault}): value (10 shapes incl. empty list, bare string, non-ASCII, reserved characters, 2-tuple, 1-tuple) x "
+    "existing/new key x always_return_list: the underlying storage holds lists of strings for every key, the view and Feature[k] follow "
+    "the switch, and the printed line, astuple() and JSON form are identical under both switch settings and equal the expected line. "
+    "Part 'json' (shards = key count 1..3 x first value): every mapping over the 10 shapes (1110 mappings) x container {Attributes, "
+    "dict}: _jsonify/_unjsonify round trip is the identity and returns Attributes, a second decode is independent of edits to the "
+    "first, and a Feature built from the JSON text has the mapping. Part 'merge' (81 shards): all ordered pairs of 81 mappings x "
+    "numeric_sort x container {dict, Attributes, dict with bare-string scalars} x switch: merge_attributes equals a reference union and "
+    "leaves its arguments unchanged. Part 'eq' (24 shards): all ordered pairs of a 24-feature set: ==/!= agree with printed-line "
+    "equality, equal features hash alike and deduplicate in a set, also for a feature that was hashed and then edited into the other. "
+    "Non-trivial = a scalar, single-item or non-ASCII value is involved (set/json); both arguments share a key (merge); the two "
+    "features differ in exactly one column/attribute/extra, or are equal but distinct entries (eq)."
+)
 ASSUMPTIONS = [
     "'sequence of strings' is checked on the underlying storage (Attributes._d) and on the JSON text",
     "the global switch constants.always_return_list is restored after every execution",
